@@ -41,7 +41,7 @@ var (
 )
 
 // Watchdog is the real-time limit for one bubble.
-var Watchdog = 120 * time.Second
+var Watchdog = 10 * time.Second
 
 // Run executes body in a fresh bubble. The determinised runtime's random
 // stream is reset first, so the execution is a pure function of the choices
